@@ -2,7 +2,7 @@
    executable statement of the property (spec_post_allowed), outside the
    zero-time sentinel class; the sentinel witnesses. *)
 From Coq Require Import String.
-From Coq Require Import List ZArith NArith Bool Lia.
+From Coq Require Import List ZArith NArith Bool Lia Permutation.
 From Tele Require Import Lib.Bytes Lib.Calendar Proofs.CalendarFacts Gen.Consts Model.Mode Model.Gating
   Proofs.ModeFacts Proofs.DateOrder Proofs.GatingFacts Proofs.RunFacts.
 Import ListNotations.
@@ -38,6 +38,23 @@ Proof.
   split.
   - intros x [<-|Hx]; [exact I1 | apply I2; exact Hx].
   - destruct I3 as [->|I3]; [left; reflexivity | right; exact I3].
+Qed.
+
+(* the listing order of a week's files (os.ReadDir: by name, i.e. by program)
+   does not matter: earliest[expiry] is the same for every order *)
+Theorem earliest_order_independent bs bs' : Permutation bs bs' ->
+  (forall b, In b bs -> b <> zero_ns) ->
+  fold_left upd_earliest bs zero_ns = fold_left upd_earliest bs' zero_ns.
+Proof.
+  intros P NZ. destruct bs as [|b0 bs0].
+  - apply Permutation_nil in P. subst. reflexivity.
+  - assert (NE' : bs' <> []) by (intros ->; apply Permutation_sym, Permutation_nil in P; discriminate).
+    assert (NZ' : forall b, In b bs' -> b <> zero_ns)
+      by (intros b I; apply NZ; eapply Permutation_in; [apply Permutation_sym; exact P | exact I]).
+    destruct (earliest_is_min (b0 :: bs0) ltac:(discriminate) NZ) as [M1 I1].
+    destruct (earliest_is_min bs' NE' NZ') as [M2 I2]. cbv zeta in *.
+    pose proof (M2 _ (Permutation_in _ P I1)).
+    pose proof (M1 _ (Permutation_in _ (Permutation_sym P) I2)). lia.
 Qed.
 
 (* the quirk: a begin equal to the zero time is forgotten *)
